@@ -115,6 +115,53 @@ def cli_batch(acc, batch, ranks=2, only=None):
                                   msg=f"`gwf touch {' '.join(sel or [])}` on {wname} hashing={hashing} files={dict(zip(outs, state))}: {problems[:3]}")
 
 
+def symlink_batch(acc, batch):
+    """Declared outputs that exist as symbolic links (a 'current -> run1' habit): to a file that is out of date, to a fresh file, or
+    to nothing. gwf judges a path by the file behind it, so after touch that file must be fresh (created if need be), its content
+    unchanged, and nothing else in the project may change."""
+    for which, kind, sel, hashing in batch:
+        wf = W.Workflow([W.T("A", ["src"], ["a"], spec="echo A\n"), W.T("B", ["a"], ["b"], spec="echo B\n"), W.T("C", ["b"], ["c"], spec="echo C\n")])
+        files = {"src": (3, "src"), "a": (4, "old:a"), "b": (5, "old:b"), "c": (6, "old:c"), "store/keep": (1, "keep")}
+        link_rank = 7  # the link itself is the newest thing around: only the file behind it counts
+        if kind == "stale":
+            files["store/real"] = (2, "real content")  # older than src
+        elif kind == "fresh":
+            files["store/real"] = ({"a": 4, "b": 5, "c": 6}[which], "real content")
+        files[which] = (link_rank, ("symlink", "store/real"))
+        conf = {"backend": "slurm"}
+        if hashing:
+            conf["use_spec_hashes"] = True
+        w0 = W.World(wf, files=files, conf=conf)
+        with W.Session(w0) as s:
+            r = s.gwf(["touch"] + sel)
+            after = s.snapshot()
+            rs = s.gwf(["status"])
+        acc.extra["invocations"] += 2
+        case = dict(kind="symlink", which=which, link=kind, sel=sel, hashing=hashing)
+        rows = W.parse_status(rs.stdout) if rs.exit_code == 0 else {}
+        problems = []
+        if r.exit_code != 0 or r.crashed():
+            problems.append(f"touch failed: {r.exc or r.err_summary()}")
+        cone = {"A"} if sel == ["A"] else {"A", "B"} if sel == ["B"] else {"A", "B", "C"}
+        notdone = sorted(n for n in cone if rows.get(n) != "completed")
+        if notdone:
+            problems.append(f"after touch, status shows {[(n, rows.get(n)) for n in notdone]}")
+        for p_, (rk, c) in files.items():
+            if p_ not in after.files:
+                problems.append(f"{p_} disappeared")
+            elif after.files[p_][1] != c:
+                problems.append(f"content of {p_} changed: {after.files[p_][1]!r}")
+        extra = sorted(set(after.files) - set(files) - ({"store/real"} if kind == "dangling" else set()))
+        if extra:
+            problems.append(f"files created outside the cone: {extra}")
+        if kind == "dangling" and {"a": "A", "b": "B", "c": "C"}[which] in cone and after.files.get("store/real", (0, None))[1] != "":
+            problems.append("the file behind the dangling link was not created empty")
+        acc.case(key=json.dumps(case, sort_keys=True), outcome=f"symlink {kind} problems={len(problems)}", sample=case)
+        if problems:
+            acc.violation(sig=dict(kind="symlink", link=kind, what=problems[0].split(" ")[0] + " " + problems[0].split(" ")[1]), case=case, observed=problems,
+                          msg=f"`gwf touch {' '.join(sel)}` with output {which} being a symbolic link to a {kind} file, hashing={hashing}: {problems[:3]}")
+
+
 def order_batch(acc, batch):
     """touch_workflow with every iteration order of dependency sets and endpoint set."""
     import shutil
@@ -195,6 +242,7 @@ def run(ctx):
         nouts = len({o for n, i, o_ in defs for o in W.T(n, [], o_).flat("outputs")})
         for state in itertools.product([None, 1, 3], repeat=nouts):
             oitems.append((wname, state))
+    ctx.pmap(me, "symlink_batch", [(wh, k, sel, h) for wh in ("a", "b", "c") for k in ("stale", "fresh", "dangling") for sel in ([], ["A"], ["B"], ["C"]) for h in (False, True)], chunk=4)
     ctx.pmap(me, "order_batch", oitems if not quick else oitems[::3], chunk=4)
     ctx.rule = "cli: (workflow, file state over {missing,1..r}^outputs, selection, hashing); order: (workflow, file state, endpoint order, per-node dependency order)"
     ctx.bound = dict(workflows=list(wf_defs()), ranks=2 if quick else 3, selections=6, order_items=len(oitems) if not quick else len(oitems[::3]))
@@ -208,6 +256,9 @@ def replay(case):
     acc = Acc()
     if case["kind"] == "cli":
         cli_batch(acc, [(case["wf"], case["hashing"])], ranks=3, only=(list(case["state"]), case["sel"]))
+        return acc.violations
+    if case["kind"] == "symlink":
+        symlink_batch(acc, [(case["which"], case["link"], case["sel"], case["hashing"])])
         return acc.violations
     order_batch(acc, [(case["wf"], tuple(case["state"]))])
     return [v for v in acc.violations if list(v["case"]["ep_order"]) == list(case["ep_order"])][:1]
